@@ -136,6 +136,7 @@ def run_one(dst: str, h: dict, workdir: str, solver: str, timeout: int) -> HResu
             r.cbmc_cmd = cmd
             return r
         r = parse_text(p.stdout)
+        r.solver = solver
         r.harness = name
         r.time_s = time.time() - t0
         r.raw = p.stdout[-3000:]
